@@ -18,10 +18,22 @@ def canon_key(c):
         return None
     # physical value (magnitude × unit scale) and dimension: an in-place unit conversion is not a change
     if c["t"] == "q":
-        return ("q", round(float(c["m"]) * float(c["scale"]), 12) if abs(float(c["m"]) * float(c["scale"])) < 1e3 else float("%.12g" % (float(c["m"]) * float(c["scale"]))), tuple(c["dim"]))
+        return ("q", float(c["m"]) * float(c["scale"]), tuple(c["dim"]))
     if c["t"] == "h":
-        return ("h", tuple(c["ks"]), tuple(float("%.12g" % (v * float(c["scale"]))) for v in c["vs"]), tuple(c["dim"]))
+        return ("h", tuple(c["ks"]), tuple(float(v) * float(c["scale"]) for v in c["vs"]), tuple(c["dim"]))
     return (c["t"], c.get("repr"))
+
+
+def same(a, b, rel=1e-9):
+    """equality of two descriptions, numbers compared with a relative tolerance: an in-place unit conversion changes
+    the last bits of a magnitude × scale product, which is not a change of the model"""
+    if isinstance(a, float) and isinstance(b, float):
+        if a == b or (a != a and b != b):
+            return True
+        return abs(a - b) <= rel * max(abs(a), abs(b))
+    if isinstance(a, tuple) and isinstance(b, tuple):
+        return len(a) == len(b) and all(same(x, y, rel) for x, y in zip(a, b))
+    return a == b
 
 
 def describe(v, with_identity=True, with_graph=True):
@@ -64,7 +76,7 @@ def deep(objs, with_identity=True, with_graph=True):
 def diff(a, b, limit=5):
     out = []
     for k in sorted(set(a) | set(b), key=str):
-        if a.get(k) != b.get(k):
+        if not same(a.get(k), b.get(k)):
             out.append(k)
             if len(out) >= limit:
                 break
